@@ -1,6 +1,6 @@
 (* Reference for C14: DLMS Data as a tree, its standard A-XDR encoding (Green Book 9.5 /
    IEC 61334-6), and the Python value each tree stands for.  Independent of the decoder. *)
-From Dlms Require Import Base FieldsModel TimeModel TimeProofs.
+From Dlms Require Import Base FieldsModel TimeModel TimeSpec.
 
 Inductive data :=
 | DNull
